@@ -53,11 +53,12 @@ CONFIGS = [dict(param_vec=False, t_vec=False), dict(param_vec=True, t_vec=True),
            dict(param_vec=True, t_vec=False), dict(param_vec=False, t_vec=True)]
 
 
-def real_batched(view: PyView, fn, cfg, cols):
+def real_batched(view: PyView, fn, cfg, cols, single_view=None):
     """Call the really emitted function on (n, 2) arrays and per column; -> (batched, [col0, col1])."""
     import numpy as np
 
     ns = view.namespace()
+    ns1 = (single_view or view).namespace()
     names = view.arg_names(fn)
     per = [view._arrays(c) for c in cols]
 
@@ -88,7 +89,7 @@ def real_batched(view: PyView, fn, cfg, cols):
                     sargs.append(p[a])
                 else:
                     sargs.append(per[0][a])
-            singles.append(np.asarray(ns[fn](*sargs)))
+            singles.append(np.asarray(ns1[fn](*sargs)))
     return B, singles
 
 
@@ -105,7 +106,34 @@ def default_cols(view, m):
     return [c0, c1]
 
 
-def check_function(prog: Prog, view: PyView, m, fn, cfg, tag):
+def spot_check(prog, view, m, fn, cfg, label, single_view=None):
+    """Real batched call vs per-column calls for column pairs taken from a small grid of values."""
+    import itertools
+    grid = [-1.25, 0.75, 2.5]
+    names = sorted(view.index_map("state"))
+    tried = 0
+    for k, (va, vb) in enumerate(itertools.product(grid, repeat=2)):
+        cols = default_cols(view, m)
+        for i, s in enumerate(names):
+            cols[0][f"s_{s}"] = va + 0.1 * i
+            cols[1][f"s_{s}"] = vb - 0.1 * i
+        try:
+            B, S = real_batched(view, fn, cfg, cols, single_view)
+        except Exception as e:
+            prog.fact(label + f"|spot{k}", False, "BatchedCallRaised", f"real call on (n, 2) arrays raised {type(e).__name__}: {str(e)[:200]}")
+            return "raised"
+        tried += 1
+        n_out = S[0].shape[0]
+        bad = [(i, j) for i in range(n_out) for j in range(2)
+               if B.shape != (n_out, 2) or differs(float(B[i, j]), float(S[j][i]))]
+        if bad:
+            prog.fact(label + f"|spot{k}", False, "ColumnsDiffer",
+                      f"{fn}: column of the batched call differs from the single-column call at slots {bad[:4]} (columns {cols[0]} / {cols[1]})"[:400])
+            return "violation"
+    return f"{tried} column pairs agree"
+
+
+def check_function(prog: Prog, view: PyView, m, fn, cfg, tag, single_view=None):
     c = prog.ctx
     label = f"numpy|{fn}|{tag}"
     try:
@@ -116,14 +144,16 @@ def check_function(prog: Prog, view: PyView, m, fn, cfg, tag):
     except ArtefactError as e:
         def confirm():
             try:
-                B, singles = real_batched(view, fn, cfg, default_cols(view, m))
+                B, singles = real_batched(view, fn, cfg, default_cols(view, m), single_view)
             except Exception as ex:
                 return True, f"real call on (n, 2) arrays raised {type(ex).__name__}: {str(ex)[:200]}"
             return False, "real batched call did not raise"
         prog.structural(label + "|batched-exec", e, confirm)
         return
     except Unsupported as e:
-        prog.skip(label, f"unsupported: {e}")
+        # not encodable: concrete spot-check on real arrays for several column pairs (replay machinery as a safety net)
+        spot = spot_check(prog, view, m, fn, cfg, label, single_view)
+        prog.skip(label, f"unsupported construct in emitted code ({e}); concrete spot-check on real (n, 2) arrays: {spot}")
         return
     prog.fact(label + "|shape", bool(res.batched), "WrongShape", f"{fn} does not return an (n_out, N) array for (n, N) states")
     if not res.batched:
@@ -131,7 +161,7 @@ def check_function(prog: Prog, view: PyView, m, fn, cfg, tag):
     singles = []
     for j in range(2):
         try:
-            pj = pysym.PyExec(c, view.mod, ncols=1, scalar_suffix=f"@{j}", **cfg)
+            pj = pysym.PyExec(c, (single_view or view).mod, ncols=1, scalar_suffix=f"@{j}", **cfg)
             singles.append(pj.run(fn))
         except (ArtefactError, Unsupported) as e:
             prog.skip(label, f"scalar-mode run failed: {e}")
@@ -153,7 +183,7 @@ def check_function(prog: Prog, view: PyView, m, fn, cfg, tag):
                     for k, val in inputs.items():
                         if "@" not in k:
                             cc.setdefault(k, val)
-                B, _ = real_batched(view, fn, cfg, cols)
+                B, _ = real_batched(view, fn, cfg, cols, single_view)
                 return float(B[idx, j])
 
             def re_(inputs, idx=idx, j=j):
@@ -162,14 +192,14 @@ def check_function(prog: Prog, view: PyView, m, fn, cfg, tag):
                     for k, val in inputs.items():
                         if "@" not in k:
                             cc.setdefault(k, val)
-                _, S = real_batched(view, fn, cfg, cols)
+                _, S = real_batched(view, fn, cfg, cols, single_view)
                 return float(S[j][idx])
 
             prog.eq(label + f"|slot{idx}|col{j}", [], col, sv.cols[0], gen_eval=ge, ref_eval=re_,
                     what=f"{fn} column {j} of the batched call vs the call on column {j} alone")
     # one real batched run per function as a cross-check of the shape/failure model
     try:
-        B, S = real_batched(view, fn, cfg, default_cols(view, m))
+        B, S = real_batched(view, fn, cfg, default_cols(view, m), single_view)
         ok = B.shape == (res.length, 2) and all(
             not differs(float(B[i, j]), float(S[j][i])) for i in range(res.length) for j in range(2))
         prog.fact(label + "|real-arrays", ok, "ColumnsDiffer", f"real call: batched shape {B.shape}, columns differ from single calls")
@@ -205,6 +235,15 @@ def work(task):
         if code is None:
             return prog.result()
     view = PyView(code, "numpy")
+    if task["family"] in ("VEC", "LAYOUT", "WIDE", "SPLIT"):
+        # the documented shape option: 'multiple' is for (n, N) batches, 'single' for 1-D states
+        code_m = checks.generate(prog, "numpy|get_code|shape=multiple",
+                                 lambda: pipeline.gen_py(ode, schemes=["explicit_euler"], missing_values=mv, shape="multiple"))
+        if code_m is not None:
+            vm = PyView(code_m, "numpy")
+            for fn in ("rhs", "monitor_values", "explicit_euler") + (("missing_values",) if mv else ()):
+                if vm.has(fn):
+                    check_function(prog, vm, m, fn, CONFIGS[0], "shape-multiple", single_view=view)
     cfgs = CONFIGS if task["family"] in ("VEC", "SPLIT") else CONFIGS[:2]
     for ci, cfg in enumerate(cfgs):
         tag = ("pvec" if cfg["param_vec"] else "pscal") + "-" + ("tvec" if cfg["t_vec"] else "tscal")
